@@ -50,6 +50,9 @@ def extras_ops():
         py("m.C.new_cells('k', formula='lambda: 3')", "setup"),
         py("m.C.k.value = 4", "setup"),
         py("m.G = 1", "setup"),
+        # inputs held by *derived* cells (where B / C derive z from A; rejected elsewhere, which is fine)
+        py("m.B.z[2] = 9", "setup"),
+        py("m.C.z[3] = 8", "setup"),
     ]
 
 
@@ -195,6 +198,9 @@ def invalid_ops(rm, extras, full=True):
         ops.append(py("m.C.k.value = None", r, setup="m.C.k.allow_none = False; m.allow_none = True"))
         ops.append(py("m.C.k = None", r, setup="m.C.k.allow_none = False; m.C.allow_none = True"))
         ops.append(py("m.A.z[1] = None", r, setup="m.A.allow_none = False; m.allow_none = True"))
+        # a cells made from a function whose source cannot be retrieved: its definition cannot be renamed
+        ops.append(py("m.A.sl.rename('sl2')", "no-source",
+                      setup="ns = {}; exec('def sl(a):\\n    return a', ns); m.A.new_cells('sl', formula=ns['sl'])"))
         ops.append(py("m.C.k.formula = 5", "malformed-formula"))           # cells holding an input
         ops.append(py("m.A.z.formula = len", "malformed-formula"))
     # 8. removing what is not a base, deleting what does not exist
